@@ -525,7 +525,7 @@ func structural(t *rapid.T) Case {
 	var sb strings.Builder
 	c := Case{Entry: "shape.thrift", Files: map[string]string{}, Src: "structural"}
 	name := func(prefix string, i int) string { return fmt.Sprintf("%s%d", prefix, i%n) }
-	kind := rapid.SampledFrom([]string{"typedef-lasso", "self-default-literal", "docstring-shapes", "typedef-cycle", "const-cycle", "const-struct-default-cycle", "struct-default-self", "struct-default-chain", "service-cycle", "include-loop", "self-include", "dangling-type", "dangling-const", "dangling-service", "typedef-through-container-cycle", "required-struct-cycle", "union-self", "exception-throws-cycle", "const-enum-ref-missing", "deep-typedef-chain", "const-of-recursive-struct", "multi-file-program"}).Draw(t, "kind")
+	kind := rapid.SampledFrom([]string{"typedef-lasso", "self-default-literal", "docstring-shapes", "typedef-cycle", "const-cycle", "const-struct-default-cycle", "struct-default-self", "struct-default-chain", "service-cycle", "include-loop", "self-include", "dangling-type", "dangling-const", "dangling-service", "typedef-through-container-cycle", "required-struct-cycle", "union-self", "exception-throws-cycle", "const-enum-ref-missing", "deep-typedef-chain", "const-of-recursive-struct", "multi-file-program", "typedef-dag", "annotation-values"}).Draw(t, "kind")
 	c.Shape = fmt.Sprintf("%s-%d", kind, n)
 	switch kind {
 	case "typedef-lasso":
@@ -676,6 +676,36 @@ func structural(t *rapid.T) Case {
 		}
 		fmt.Fprintf(&sb, "struct S { 1: optional D%d d = 5 }\n", depth)
 		c.Shape = fmt.Sprintf("%s-%d", kind, depth)
+	case "typedef-dag":
+		// no cycle at all, but every level uses the next one twice (or three times): anything
+		// that walks the type graph path by path takes 2^depth steps
+		depth := rapid.SampledFrom([]int{4, 12, 26}).Draw(t, "dagdepth")
+		forms := []string{"map<%[1]s, %[1]s>", "map<string, map<%[1]s, list<%[1]s>>>", "list<map<%[1]s, set<%[1]s>>>"}
+		form := rapid.SampledFrom(forms).Draw(t, "dagform")
+		for i := 0; i < depth; i++ {
+			fmt.Fprintf(&sb, "typedef "+form+" D%d\n", fmt.Sprintf("D%d", i+1), i)
+		}
+		fmt.Fprintf(&sb, "typedef i32 D%d\nstruct S { 1: optional D0 d }\n", depth)
+		c.Shape = fmt.Sprintf("%s-%d", kind, depth)
+	case "annotation-values":
+		// annotations the generator interprets, with values of every kind, on every kind of entity
+		vals := []string{`""`, `"x"`, `"1a"`, `"Ok"`, `"has space"`, `"Foo_Bar"`, `"slice"`, `"\"quoted\""`, `"type"`, `"json:\"a\" bad"`}
+		keys := []string{"go.name", "go.label", "go.tag", "go.type", "go.redact", "go.nolog"}
+		// one annotation per program (a second one would usually hide behind the first error)
+		site := rapid.IntRange(0, 15).Draw(t, "asite")
+		one := fmt.Sprintf("(%s = %s)", rapid.SampledFrom(keys).Draw(t, "akey"), rapid.SampledFrom(vals).Draw(t, "aval"))
+		ann := func(i int) string {
+			if i == site {
+				return one
+			}
+			return ""
+		}
+		c.Shape = fmt.Sprintf("%s-site%d", kind, site)
+		fmt.Fprintf(&sb, "enum E { A %s, B } %s\n", ann(0), ann(1))
+		fmt.Fprintf(&sb, "typedef set<string> %s T %s\n", ann(2), ann(3))
+		fmt.Fprintf(&sb, "struct S { 1: optional string a %s\n 2: optional T t %s } %s\n", ann(4), ann(5), ann(6))
+		fmt.Fprintf(&sb, "exception X { 1: optional string m %s } %s\nunion U { 1: string s %s } %s\n", ann(7), ann(8), ann(9), ann(10))
+		fmt.Fprintf(&sb, "service V { void f(1: string p %s) throws (1: X x %s) %s } %s\nconst i32 K = 1 %s\n", ann(11), ann(12), ann(13), ann(14), ann(15))
 	case "const-of-recursive-struct":
 		sb.WriteString("struct Node { 1: optional Node nxt \n 2: optional i32 v = 3 }\nconst Node LIST = {\"nxt\": {\"nxt\": {\"v\": 1}}}\n")
 	}
@@ -749,7 +779,7 @@ func TestStructuralGrid(t *testing.T) {
 		seen[c.Shape] = true
 		batch = append(batch, c)
 		// shapes with random content: keep several variants of each
-		for prefix, want := range map[string]int{"self-default-literal": 40, "docstring-shapes": 40, "typedef-lasso": 40, "typedef-through-container-cycle": 40, "multi-file-program": 12} {
+		for prefix, want := range map[string]int{"self-default-literal": 40, "docstring-shapes": 40, "typedef-lasso": 40, "typedef-through-container-cycle": 40, "multi-file-program": 12, "annotation-values": 40, "typedef-dag": 6} {
 			if strings.HasPrefix(c.Shape, prefix) {
 				variants[c.Shape]++
 				if variants[c.Shape] < want {
